@@ -434,7 +434,10 @@ func checkC17(r *Run) {
 			items = append(items, plItem{Name: n, HasEq: v.eq, Val: v.val})
 		}
 	}
-	lws := []string{" ", "\r\n "}
+	lws := []string{" ", "\r\n ", "\t"}
+	if !r.quick() {
+		lws = append(lws, "\n ", "\r\n\t")
+	}
 	modes := c17Modes()
 	cutEvery := r.pick(4, 1)
 	run := func(c *enumCtx, cs *c17Case) {
